@@ -44,7 +44,8 @@ type knobs struct {
 	vsetSeed                             uint64
 	events                               int
 	dropPm, dupPm, fifoPm                int
-	partitionPm, restartPm               int
+	partitionPm, restartPm, stallPm      int
+	activity                             []int
 	byzPm, specPm, syncPm                int
 	forkPm, oldParentPm                  int
 }
@@ -214,6 +215,7 @@ func (cl *Cluster) restart(n *Node) {
 		return
 	}
 	n.restarts++
+	n.buildsThisLife = 0
 	cl.c.Count("restarts", 1)
 	n.inst = nil
 	cl.guard(n, "restart", func() {
@@ -221,6 +223,29 @@ func (cl *Cluster) restart(n *Node) {
 	})
 	n.newBuffer()
 	cl.ext.onNewInstance(n)
+}
+
+// resetTo: node n abandons its epoch and jumps (Reset) to the epoch node m is in.
+func (cl *Cluster) resetTo(n, m *Node) {
+	if n.stopped || m.stopped || m.epoch() <= n.epoch() {
+		return
+	}
+	e := m.epoch()
+	var err error
+	cl.guard(n, "Reset", func() { err = n.inst.lch.Reset(idx.Epoch(e), cl.epochRef(e).PV) })
+	if err != nil {
+		cl.c.Violation("reset-error", "reset-error", "node %s: Reset(%d) returned %v", n.name, e, err)
+	}
+	cl.c.Count("resets", 1)
+	n.resetFrom = e
+	n.newBuffer()
+	cl.ext.onNewInstance(n)
+	if cl.on["seal"] {
+		st := n.inst.store
+		if uint32(st.GetEpoch()) != e || st.GetLastDecidedFrame() != 0 || st.GetValidators().String() != cl.epochRef(e).PV.String() || len(st.GetFrameRoots(1)) != 0 {
+			cl.c.Violation("seal", "seal/reset-state", "node %s: after Reset(%d): epoch=%d decided=%d validators=%s roots(1)=%d", n.name, e, st.GetEpoch(), st.GetLastDecidedFrame(), st.GetValidators(), len(st.GetFrameRoots(1)))
+		}
+	}
 }
 
 // ---- block callbacks -------------------------------------------------------------------------
@@ -388,6 +413,10 @@ func (cl *Cluster) build(cd *candidate) (uint32, bool) {
 		cl.c.Violation("build-error", "build-error", "node %s: Build returned %v for a well-formed candidate", cd.node.name, err)
 	}
 	cl.c.Count("builds", 1)
+	cd.node.buildsThisLife++
+	if cd.node.buildsThisLife == 257 {
+		cl.c.Probe("instance_with_more_than_256_builds")
+	}
 	return uint32(me.Frame()), true
 }
 
